@@ -140,6 +140,10 @@ type (
 		L, R Expr
 	}
 	Not     struct{ X Expr }
+	Like struct {
+		X, Pat Expr
+		Neg    bool
+	}
 	Between struct {
 		X, Lo, Hi Expr
 		Neg       bool
@@ -321,7 +325,7 @@ func (p *parser) ident() string {
 }
 
 var reserved = map[string]bool{"FROM": true, "WHERE": true, "ORDER": true, "LIMIT": true, "UNION": true, "JOIN": true, "ON": true, "AND": true, "OR": true,
-	"GROUP": true, "HAVING": true, "INNER": true, "LEFT": true, "AS": true, "NOT": true, "IN": true, "IS": true, "BETWEEN": true, "SELECT": true, "ASC": true, "DESC": true, "SET": true, "VALUES": true}
+	"GROUP": true, "HAVING": true, "INNER": true, "LEFT": true, "AS": true, "NOT": true, "IN": true, "IS": true, "BETWEEN": true, "LIKE": true, "SELECT": true, "ASC": true, "DESC": true, "SET": true, "VALUES": true}
 
 func (p *parser) selectStmt() *Select {
 	s := &Select{}
@@ -484,6 +488,8 @@ func (p *parser) cmpExpr() Expr {
 		neg = true
 	}
 	switch {
+	case p.acceptKw("LIKE"):
+		return Like{X: l, Pat: p.addExpr(), Neg: neg}
 	case p.acceptKw("BETWEEN"):
 		lo := p.addExpr()
 		p.expectKw("AND")
